@@ -778,6 +778,26 @@ func (g *gen) percentString() string {
 
 var intAttrVals = []string{"1", "2", "3", "0", "-1", "", " ", " 2 ", "\t3\n", "+2", "-0", "1e9", "1.5", "2px", "abc", "99999999999999999999", "-99999999999999999999", "9223372036854775807", "9223372036854775808", "-9223372036854775808", "-9223372036854775809", "0x10", "1_0", " 2 ", " 2", "2　", "\xff", "2\xff", "٣", "１", "--1", "+-1", "+", "-", "00002", "2 3", "2,3"}
 
+// spanVals: attribute values for the call sites of integerAttribute (colspan in [1, 1000], rowspan in [0, 65534],
+// span in [1, 1000]): every integer around each bound of each site, in every spelling Atoi / TrimSpace accept
+var spanValsCache []string
+
+func spanVals() []string {
+	if spanValsCache != nil {
+		return spanValsCache
+	}
+	out := append([]string{}, intAttrVals...)
+	for _, k := range []int64{-1001, -1000, -2, -1, 0, 1, 2, 3, 7, 999, 1000, 1001, 1002, 65533, 65534, 65535, 65536, 1 << 31, 1 << 32, 1<<63 - 1, -1 << 63} {
+		d := fmt.Sprint(k)
+		out = append(out, d, " "+d+" ", "\t"+d+"\n", "00"+d, d+".0", d+"px")
+		if k >= 0 {
+			out = append(out, "+"+d, "-"+d, "+0"+d, "-00"+d)
+		}
+	}
+	spanValsCache = out
+	return out
+}
+
 // values used inside whole documents: no huge valid integers (a colspan of 10^9 is a valid
 // request for a 10^9 column grid, not a parsing matter)
 var docIntAttrVals = []string{"1", "2", "3", "0", "-1", "", " ", " 2 ", "+2", "1e9", "1.5", "2px", "abc", "99999999999999999999", "-99999999999999999999", "9223372036854775808", "0x10", " 2 ", "--1", "+", "-", "00002", "2 3", "7", "+9", "-9", "12"}
@@ -869,6 +889,10 @@ func (g *gen) generate(n int) []job {
 	for _, s := range intAttrVals {
 		add("intattr", s, r.Intn(2), "pool")
 	}
+	for _, s := range spanVals() {
+		add("spans", s, 0, "pool")
+	}
+	add("spans", "", 1, "pool")
 	for _, s := range svgPaints {
 		add("painter", s, 0, "pool")
 		add("svgurl", s, 0, "pool")
@@ -952,7 +976,11 @@ func (g *gen) generate(n int) []job {
 			}
 			add("nth", g.textMutate(s, 3), 0)
 		case k < 95:
-			add("intattr", g.textMutate(vlib.Pick(r, intAttrVals), 3), r.Range(-1, 2))
+			if r.Bool() {
+				add("intattr", g.textMutate(vlib.Pick(r, intAttrVals), 3), r.Range(-1, 2))
+			} else {
+				add("spans", g.textMutate(vlib.Pick(r, spanVals()), 3), 0)
+			}
 		case k < 96:
 			add("par", g.textMutate(vlib.Pick(r, svgPars), 2), 0)
 		case k < 97:
